@@ -119,8 +119,15 @@ fn case_typed<F: Family>(input: &Input, ctx: &mut Ctx) -> CaseResult {
     roundtrip::<F>(&p, ctx)
 }
 
-/// PUBLISH whose remaining length is exactly nums[0] (up to the 268,435,455 maximum)
+/// PUBLISH whose remaining length is exactly nums[0] (up to the 268,435,455 maximum), or a
+/// boundary-size construction nums = [kind, type, target] of sized.rs
 fn case_sized<F: Family>(input: &Input, ctx: &mut Ctx) -> CaseResult {
+    if input.nums().len() >= 3 {
+        return match crate::sized::from_input::<F>(input, ctx) {
+            Some(p) => roundtrip::<F>(&p, ctx),
+            None => Ok(()),
+        };
+    }
     let rl = input.nums().first().copied().unwrap_or(2) as usize;
     let p = sized_publish::<F>(rl);
     roundtrip::<F>(&p, ctx)
@@ -160,6 +167,17 @@ pub fn run(env: &mut Env) -> RunResult {
     let inputs: Vec<Input> = sizes.iter().map(|s| Input::Nums(vec![*s])).collect();
     env.run_inputs(SUB_S3, &inputs)?;
     env.run_inputs(SUB_S5, &inputs)?;
+    // exact remaining-length and property-section lengths around every var-int width boundary
+    let s3 = crate::sized::inputs(model::Fam::V3, env.thorough());
+    let n3 = s3.len() as u64;
+    env.run_enum(SUB_S3, n3, false, move |i| s3[i as usize].clone())?;
+    let s5 = crate::sized::inputs(model::Fam::V5, env.thorough());
+    let n5 = s5.len() as u64;
+    env.run_enum(SUB_S5, n5, false, move |i| s5[i as usize].clone())?;
+    env.require("c01.sized.v5", "sized-properties");
+    env.require("c01.sized.v5", "sized-will-properties");
+    env.require("c01.sized.v5", "utf8-flagged-payload");
+    env.require("c01.sized.v5", "sized:2MiB-boundary");
     for t in ["CONNECT", "CONNACK", "PUBLISH", "PUBACK", "PUBREC", "PUBREL", "PUBCOMP", "SUBSCRIBE", "SUBACK", "UNSUBSCRIBE", "UNSUBACK", "PINGREQ", "PINGRESP", "DISCONNECT"] {
         env.require("c01.typed.v3", &format!("{}/h1", t));
         env.require("c01.typed.v5", &format!("{}/h1", t));
